@@ -70,18 +70,25 @@ def check(ctx: Ctx) -> str:
         ctx.check(fi.cls is not None and fi.cls.name == "SandboxedEnvironment", f"{meth}:override", "sandbox:SandboxedEnvironment", f"{meth} override", f"SandboxedEnvironment no longer overrides {meth}", fi.loc())
         rets = astq.returns(fi.node)
         nval = 0
+        # the local holding the format wrapper (whatever it is called)
+        wraps = [a for a in ast.walk(fi.node) if isinstance(a, ast.Assign) and ast.unparse(a.value) == "self.wrap_str_format(value)" and isinstance(a.targets[0], ast.Name)]
+        wvar = wraps[0].targets[0].id if len(wraps) == 1 else "fmt"  # type: ignore[attr-defined]
         for r in rets:
             txt = ast.unparse(r.value) if r.value is not None else "None"
             if txt == "value":
                 nval += 1
-                gs = [(ast.unparse(g), pol) for g, pol in guards_of(r)]
+                gs = astq.guard_atoms(fi.node, r)
                 ok = any(g.startswith("self.is_safe_attribute(obj, ") and g.endswith(", value)") and pol for g, pol in gs)
+                # ... and only after the format wrapper was ruled out for this value
+                ok = ok and (f"{wvar} is None", True) in gs
                 ctx.check(ok, f"{meth}:return value", f"sandbox:SandboxedEnvironment.{meth}", "value returned without is_safe_attribute",
                           f"`return value` in {meth} is not dominated by self.is_safe_attribute(obj, {namevar}, value): private / internal attributes reach the template", fi.loc(r), detail={"guards": gs})
             elif txt.startswith("getattr(") or (".__" in txt and "self." not in txt):
                 ctx.bad(f"sandbox:SandboxedEnvironment.{meth}", f"return {txt[:40]}", f"{meth} returns `{txt}` directly, bypassing is_safe_attribute", fi.loc(r))
             else:
-                ok = txt in ("fmt", f"obj[{namevar}]", f"self.unsafe_undefined(obj, {namevar})", f"self.undefined(obj=obj, name={namevar})")
+                ok = txt in (wvar, f"obj[{namevar}]", f"self.unsafe_undefined(obj, {namevar})", f"self.undefined(obj=obj, name={namevar})")
+                if txt == wvar:
+                    ok = (f"{wvar} is None", False) in astq.guard_atoms(fi.node, r)
                 ctx.check(ok, f"{meth}:return {txt[:30]}", f"sandbox:SandboxedEnvironment.{meth}", f"return {txt[:40]}", f"unexpected return `{txt}` in the sandboxed accessor", fi.loc(r))
         ctx.check(nval == 1, f"{meth}:one value return", f"sandbox:SandboxedEnvironment.{meth}", "value returns", f"{nval} `return value` statements (expected exactly one, guarded)", fi.loc())
         # the attribute value comes from builtin getattr on obj and nothing else
@@ -89,7 +96,7 @@ def check(ctx: Ctx) -> str:
         ctx.check(len(gets) == 1 and ast.unparse(gets[0].args[0]) == "obj", f"{meth}:single getattr", f"sandbox:SandboxedEnvironment.{meth}", "builtin getattr sites", "exactly one builtin getattr(obj, ...) expected in the sandboxed accessor", fi.loc())
         # wrap_str_format consulted before the safety verdict on the same value
         src = ast.unparse(fi.node)
-        ctx.check("fmt = self.wrap_str_format(value)" in src and src.index("self.wrap_str_format(value)") < src.index("self.is_safe_attribute("), f"{meth}:format first", f"sandbox:SandboxedEnvironment.{meth}", "format wrapper first",
+        ctx.check(len(wraps) == 1 and src.index("self.wrap_str_format(value)") < src.index("self.is_safe_attribute("), f"{meth}:format first", f"sandbox:SandboxedEnvironment.{meth}", "format wrapper first",
                   "str.format / format_map must be replaced by the sandboxed wrapper before the attribute is handed out", fi.loc())
         # the unsafe path
         uu = [r for r in rets if r.value is not None and "unsafe_undefined" in ast.unparse(r.value)]
@@ -130,7 +137,13 @@ def check(ctx: Ctx) -> str:
     gf = repo.func("sandbox:SandboxedFormatter.get_field")
     src = ast.unparse(gf.node)
     loops = [n for n in ast.walk(gf.node) if isinstance(n, ast.For)]
-    ok = len(loops) == 1 and "obj = self._env.getattr(obj, i)" in src and "obj = self._env.getitem(obj, i)" in src
+    ok = False
+    if len(loops) == 1 and isinstance(loops[0].target, ast.Tuple) and len(loops[0].target.elts) == 2 and ast.unparse(loops[0].iter) == "rest":
+        flag, keyv = (ast.unparse(e_) for e_ in loops[0].target.elts)
+        hops = [a for a in ast.walk(loops[0]) if isinstance(a, ast.Assign) and ast.unparse(a.targets[0]) == "obj"]
+        forms = {ast.unparse(a.value): astq.guard_atoms(loops[0], a) for a in hops}
+        # every rebinding of obj inside the loop is one of the two sandboxed accessors, chosen by the hop kind
+        ok = set(forms) == {f"self._env.getattr(obj, {keyv})", f"self._env.getitem(obj, {keyv})"} and (flag, True) in forms[f"self._env.getattr(obj, {keyv})"] and (flag, False) in forms[f"self._env.getitem(obj, {keyv})"]
     ctx.check(ok, "get_field:hops", "sandbox:SandboxedFormatter.get_field", "field hops", "every attribute / item hop of a format field must go through self._env.getattr / getitem", gf.loc())
     bad = [c for c in astq.calls(gf.node) if astq.callee(c) in ("getattr", "super().get_field")]
     ctx.check(not bad, "get_field:no-builtin", "sandbox:SandboxedFormatter.get_field", "builtin access", "get_field uses builtin getattr / the unsandboxed base implementation", gf.loc())
